@@ -334,6 +334,43 @@ theorem Dict_reqAdd (g g' : Grammar) (n : Name) (h : g.Dict) (hok : reqAdd g n =
 theorem Dict_reqDiscard (g : Grammar) (n : Name) (h : g.Dict) : (reqDiscard g n).Dict :=
   ⟨h.1, h.2.1, nodup_serase _ _ h.2.2⟩
 
+theorem Dict_updateDefaults (g : Grammar) (l : List (Name × String)) (h : g.Dict) :
+    (updateDefaults g l).1.Dict := by
+  induction l generalizing g with
+  | nil => exact h
+  | cons p t ih =>
+    unfold updateDefaults
+    split
+    · exact ih _ ⟨h.1, nodup_akeys_aset _ _ _ h.2.1, h.2.2⟩
+    · exact h
+
+theorem Dict_clearDefaults (g : Grammar) (h : g.Dict) : (clearDefaults g).Dict :=
+  ⟨h.1, by simp [clearDefaults, akeys], h.2.2⟩
+
+theorem Dict_reqRemove (g g' : Grammar) (n : Name) (h : g.Dict) (hok : reqRemove g n = .ok g') : g'.Dict := by
+  unfold reqRemove at hok
+  split at hok
+  · cases hok; exact Dict_reqDiscard g n h
+  · cases hok
+
+theorem Dict_reqClear (g : Grammar) (h : g.Dict) : (reqClear g).Dict :=
+  ⟨h.1, h.2.1, by simp [reqClear]⟩
+
+theorem Dict_reqUpdate (g : Grammar) (l : List Name) (h : g.Dict) : (reqUpdate g l).1.Dict := by
+  induction l generalizing g with
+  | nil => exact h
+  | cons n t ih =>
+    unfold reqUpdate
+    split
+    · exact ih _ ⟨h.1, h.2.1, nodup_sinsert _ _ h.2.2⟩
+    · exact h
+
+theorem Dict_reqSub (g : Grammar) (l : List Name) (h : g.Dict) : (reqSub g l).Dict :=
+  ⟨h.1, h.2.1, List.Nodup.sublist List.filter_sublist h.2.2⟩
+
+theorem Dict_reqAnd (g : Grammar) (l : List Name) (h : g.Dict) : (reqAnd g l).Dict :=
+  ⟨h.1, h.2.1, List.Nodup.sublist List.filter_sublist h.2.2⟩
+
 theorem Dict_of_pub (g g' : Grammar) (hp : g'.pub = g.pub) (h : g.Dict) : g'.Dict := by
   have he : g'.elems = g.elems := congrArg Pub.elems hp
   have hd : g'.defaults = g.defaults := congrArg Pub.defaults hp
@@ -569,6 +606,63 @@ theorem step_Dict (w : World) (op : Op) (hw : w.Dict) (hi : w.Inv) : (step w op)
     · rename_i g hg
       exact World.Dict_put w s _ hw (Dict_reqDiscard g n (hw s g hg))
     · exact hw
+  | defupd s l =>
+    simp only [step]
+    split
+    · rename_i g hg
+      exact World.Dict_put w s _ hw (Dict_updateDefaults g l (hw s g hg))
+    · exact hw
+  | defupdfrom d s =>
+    simp only [step]
+    split
+    · rename_i gd gs hd hs
+      exact World.Dict_put w d _ hw (Dict_updateDefaults gd gs.defaults (hw d gd hd))
+    · exact hw
+  | defassignfrom d s =>
+    simp only [step]
+    split
+    · rename_i gd gs hd hs
+      exact Dict_liftE w d _ hw (fun g' h => Dict_assignDefaults gd g' gs.defaults (hw d gd hd) h)
+    · exact hw
+  | defclear s =>
+    simp only [step]
+    split
+    · rename_i g hg
+      exact World.Dict_put w s _ hw (Dict_clearDefaults g (hw s g hg))
+    · exact hw
+  | reqremove s n =>
+    simp only [step]
+    split
+    · rename_i g hg
+      exact Dict_liftE w s _ hw (fun g' h => Dict_reqRemove g g' n (hw s g hg) h)
+    · exact hw
+  | reqclear s =>
+    simp only [step]
+    split
+    · rename_i g hg
+      exact World.Dict_put w s _ hw (Dict_reqClear g (hw s g hg))
+    · exact hw
+  | requpd s l =>
+    simp only [step]
+    split
+    · rename_i g hg
+      exact World.Dict_put w s _ hw (Dict_reqUpdate g l (hw s g hg))
+    · exact hw
+  | reqsub s l =>
+    simp only [step]
+    split
+    · rename_i g hg
+      exact World.Dict_put w s _ hw (Dict_reqSub g l (hw s g hg))
+    · exact hw
+  | reqand s l =>
+    simp only [step]
+    split
+    · rename_i g hg
+      exact World.Dict_put w s _ hw (Dict_reqAnd g l (hw s g hg))
+    · exact hw
+  | reqassign s l =>
+    simp only [step]
+    split <;> exact hw
   | val s data =>
     simp only [step]
     split
